@@ -86,13 +86,24 @@ PROPS = {
         trusted_base=LOGCORE,
         assumptions=["bounds are entries of the log (stated in the property)"],
     ),
+    "C02": dict(
+        module="OrbitModel.Properties.C02",
+        theorems=["Orbit.C02.every_replica_gets_every_write", "Orbit.C02.held_never_shrinks", "Orbit.C02.final_phase_exists"],
+        families=[("routes", 120, 4000, 14)],
+        corr_fields={"values", "heads", "exchange", "local", "remote", "load", "len"},
+        nontrivial=nt_multiwriter_merge,
+        rule="PRNG scripts on 2-4 replicas: writes, manual syncs, announcements delivered late/twice/out of order, exchange-on-join (delivered, dropped, duplicated), link cuts and heals, instance restarts; final phase heals every link and exchanges heads for every ordered pair; every replica must then list every acknowledged write; non-trivial = >=2 writers, >=1 merged batch, >=3 entries",
+        trusted_base=["set-level network model (Model/Net.lean); scripted pubsub/direct channel/bitswap replace libp2p (runtime not modelled)"],
+        assumptions=["blocks held by a connected peer are fetchable; no rejected entry, no cancelled request (boundary with C10/C11)"],
+    ),
     "C19": dict(
         module="OrbitModel.Properties.C19",
-        theorems=[],
-        families=[("kv", 60, 2000, 14), ("log", 60, 2000, 14)],
+        theorems=["Orbit.C19.never_regresses", "Orbit.C19.progress_le_max", "Orbit.C19.at_rest_equals_len",
+                  "Orbit.C19.pinned_tree_max_regresses", "Orbit.C19.tied_to_go_text"],
+        families=[("status", 80, 2500, 8), ("kv", 40, 1000, 14), ("routes", 40, 1000, 12)],
         corr_fields={"status", "len"},
         nontrivial=nt_any3,
-        rule="status sampled after every step at quiescence on every replica of single- and multi-writer histories: never decreases; at rest with a complete log progress = max within [max Lamport time, entry count]",
+        rule="mid-flight sampling: several writers' branches announced one by one to an observer while some fetches are held at a gate, observed after every step; plus status sampled after every step at quiescence on every replica of single- and multi-writer histories: never decreases; at rest with a complete log progress = max within [max Lamport time, entry count]",
         trusted_base=[],
         assumptions=["one database per instance (stated in the property)"],
     ),
@@ -102,6 +113,14 @@ _TIE = ("Lean 4 theorems about a hand-written model + correspondence harness: th
         "PRNG histories and the compiled Lean driver replays every operation through the model and evaluates the "
         "property's L1 predicate on the implementation's own observations")
 MANIFEST_TEXT = {
+    "C02": dict(
+        text="Kernel-checked theorem over a set-level network model: for any prefix of writes, sends, deliveries (any message, any number of times, any order), restarts and faults, followed by a write-free final phase in which every ordered pair exchanges heads, every replica holds every acknowledged write; a replica never loses an entry even across restart. Unbounded in replicas/steps/messages. The real stores are driven over scripted pubsub/direct-channel/block transports through the same kinds of schedules (cuts, heals, lost/duplicated/reordered announcements, restarts, final exchange round) and the convergence predicate is evaluated on their observations; every step is also replayed through the store model.",
+        note="Partial where the truth is in the runtime: real libp2p pubsub/bitswap timing is replaced by scripted transports. The per-action guarantees (Valid: cached heads cover the log; a fully accepted message adds the ancestry of its heads) are proved at the store level / checked by correspondence; rejected entries and cancellations are C10/C11.",
+        technique="Lean 4 proof (invariants Covers/AckedSomewhere + final-phase delivery argument over a message-soup transition system) with differential correspondence on fault scripts"),
+    "C19": dict(
+        text="Kernel-checked theorems about the status arithmetic regenerated from the Go text on every run: progress and maximum never decrease between any two moments for any event sequence, progress <= maximum always, and at rest with a complete log of n entries both equal n; the pinned tree's regression (F15) is refuted by a decide-checked witness and was reproduced on the real store before the fix: commit. The harness samples status mid-flight (held fetches) and at quiescence and evaluates monotonicity and the at-rest bounds on the implementation.",
+        note="Trusted: Lean kernel + standard axioms; the go/ast extractor (extract/main.go) that regenerates Generated/Gen.lean; which events fire and with which arguments is modelled by hand and validated by correspondence; 'Lamport times of a complete log never exceed its size' is a hypothesis of the at-rest theorem (checked on every observation by the harness).",
+        technique="Lean 4 proof over arithmetic regenerated from the Go source (translator) + differential correspondence with mid-flight sampling"),
     "C06": dict(
         text="Kernel-checked theorems: for every history of a replica (any interleaving of local appends and merged batches) the index produced by the real UpdateIndex loop (newest-to-oldest scan with a handled set over a map that is never cleared) is equivalent to the last-writer-wins replay of the current listing; entries seen by a writer are listed before its update; the later update wins. Tied to the code by replaying every Put/Delete/Sync through the model and by checking All() = lwwReplay(Values()) on the implementation after every step on every replica.",
         note="Trusted: Lean kernel + standard axioms; hand-written model of kvIndex.UpdateIndex and of the log, validated by correspondence (bounded by the generators); hypothesis KvOps (a key-value log carries only PUT/DEL) and the log universe assumptions.",
